@@ -233,7 +233,8 @@ def newLoop (X : SchemaX) (o : VOpts) (cx : Cx) : (fuel : Nat) → (done rest : 
         -- leftover default nodes of a case that no longer exists
         if node1.flags.dflt && caseDfltVictim X (r.1 ++ node1 :: r.2.2.1) node1 then
           let rr := newLoop X o cx fuel r.1 r.2.2.1 last'
-          (rr.1, o1 ++ o2 ++ Out.ofEvs (delEvents X cx false r.1 node1) ++ rr.2)
+          -- `np_cont_diff`: 0 in the defective code (F179 b), 1 in the repaired one
+          (rr.1, o1 ++ o2 ++ Out.ofEvs (delEvents X cx (!X.q.caseDfltNpViaKids) r.1 node1) ++ rr.2)
         else
           let rr := newLoop X o cx fuel (r.1 ++ [node1]) r.2.2.1 last'
           (rr.1, o1 ++ o2 ++ rr.2)
